@@ -11,7 +11,7 @@ EXTENDS TypeSystem, Json
 CONSTANTS Depth, EmitLevel
 
 VARIABLES hist, out
-mcvars == <<hier, extra, h, rel, gens, ret, memo, steps, hist, out>>
+mcvars == <<hier, extra, h, rel, gens, ret, tab, memo, steps, hist, out>>
 
 NoKey == Key("-", NoT, NoT, 0)
 Act(op, x, y, key) == [op |-> op, x |-> x, y |-> y, key |-> key]
